@@ -373,8 +373,23 @@ class World:
             return self.construct(ex, f, args, kwargs, e)
         return NotImplemented
 
+    def make_record(self, ex, rec, args, kwargs, e):
+        names = list(rec.fields)
+        vals = {}
+        for nm, v in zip(names, args):
+            vals[nm] = v
+        vals.update(kwargs)
+        ts = []
+        for nm in names:
+            if nm not in vals:
+                raise Unsupported('record %s: field %s not given' % (rec.name, nm))
+            ts.append(ex.to_z3(vals[nm], rec.fields[nm]))
+        return V(rec.mk(*ts), rec)
+
     def construct(self, ex, pc, args, kwargs, e):
         import enum
+        if pc.path in getattr(self, 'rec_classes', {}):
+            return self.make_record(ex, self.rec_classes[pc.path], args, kwargs, e)
         if issubclass(pc.cls, enum.Enum) and len(args) == 1 and not ex.is_sym(args[0]):
             try:
                 return pc.cls(args[0])
@@ -391,6 +406,8 @@ class World:
 
     def call_function(self, ex, path, args, kwargs, e):
         line = e.lineno
+        if path in getattr(self, 'rec_classes', {}):
+            return self.make_record(ex, self.rec_classes[path], args, kwargs, e)
         if path in self.contracts:
             kc = self.contracts[path]
             return self.call_contract(ex, kc, path, args, kwargs, e)
@@ -641,6 +658,15 @@ class World:
             ex.assume(c >= 0)
             ex.assume((c > 0) == z3.Contains(t, z3.Unit(x)))
             return V(c, INT)
+        if name == 'remove':
+            x = ex.to_z3(args[0], E)
+            ex.maybe_raise('ValueError', z3.Not(z3.Contains(t, z3.Unit(x))), line)
+            r = ex.fresh('removed', ty)
+            y = z3.Const(ex.path.fresh_name('qy'), E.sort())
+            ex.assume(z3.Length(r) == z3.Length(t) - 1)
+            ex.st.qh.append(QHyp([y], z3.Implies(y != x, z3.Contains(r, z3.Unit(y)) == z3.Contains(t, z3.Unit(y))), 'seq.remove'))
+            ex.write(recv, r, line)
+            return None
         if name == 'sort':
             # result is a permutation; order abstracted: same length and membership
             r = ex.fresh('sorted', ty)
@@ -769,11 +795,67 @@ def card(ex, t, ty):
     return n
 
 
+PURE_METHODS = {'get', 'startswith', 'endswith', 'count', 'keys', 'values', 'items', 'find', 'lower', 'strip', 'split', 'index'}
+PURE_FUNCS = {'len', 'isinstance', 'getattr', 'hasattr', 'str', 'int', 'bool', 'all', 'any', 'abs', 'min', 'max', 'sorted', 'list', 'set'}
+
+
+def _effectful(lam):
+    if not isinstance(lam, Lam) or not lam.is_expr:
+        return False
+    for n in ast.walk(lam.body):
+        if isinstance(n, ast.Call):
+            f = n.func
+            if isinstance(f, ast.Attribute) and f.attr in PURE_METHODS:
+                continue
+            if isinstance(f, ast.Name) and f.id in PURE_FUNCS:
+                continue
+            return True
+    return False
+
+
+def synth_filter_loop(ex, it, e):
+    """list(filter(f, S)) with a side-effecting predicate is executed as the loop it is:
+         tmp = []; for x in S: (if f(x): tmp.append(x))        cut by an invariant keyed 'for <x> in <S source>'"""
+    lam = it.filt
+    src = ex.world.iter_source(ex, it.base, e.lineno)
+    if src is None:
+        raise Unsupported('effectful filter over %r' % (it.base,))
+    ety = src.ty.elem
+    tmpname = '__filtered_%d' % e.lineno
+    xname = lam.args[0] if isinstance(lam.args[0], str) else ast.unparse(lam.args[0])
+    rty = SetOf(ety, listlike=True)
+    ex.st.env[tmpname] = ex.newbox(rty.empty(), rty)
+    body = ast.If(test=lam.body, body=[ast.Expr(ast.Call(func=ast.Attribute(value=ast.Name(id=tmpname, ctx=ast.Load()), attr='append', ctx=ast.Load()),
+                                                            args=[ast.Name(id=xname, ctx=ast.Load())], keywords=[]))], orelse=[])
+    srcexpr = e.args[0].args[1] if (isinstance(e, ast.Call) and e.args and isinstance(e.args[0], ast.Call) and len(e.args[0].args) == 2) else ast.Name(id='<filter>', ctx=ast.Load())
+    loop = ast.For(target=ast.Name(id=xname, ctx=ast.Store()), iter=srcexpr, body=[body], orelse=[])
+    ast.copy_location(loop, e)
+    ast.fix_missing_locations(loop)
+    ex.register_synth_loop(loop)
+    # closure variables of the lambda must be visible to the loop body
+    saved = ex.st.env
+    env = dict(lam.env)
+    env.update(saved)
+    ex.st.env = env
+    try:
+        ex.loop_cut(loop, src, None, None)
+    finally:
+        cur = ex.st.env
+        res = cur[tmpname]
+        for k2 in list(cur):
+            if k2 in saved or k2 == tmpname:
+                saved[k2] = cur[k2]
+        ex.st.env = saved
+    return res
+
+
 @builtin
 def b_list(ex, args, kwargs, e):
     if not args:
         return []
     v = args[0]
+    if isinstance(v, Iter) and v.fmap is None and _effectful(v.filt) and not isinstance(v.base, (list, tuple, set)):
+        return synth_filter_loop(ex, v, e)
     if isinstance(v, Iter):
         return ex.materialize(v)
     if isinstance(v, C):
